@@ -22,11 +22,12 @@ THEOREMS = ["TLVerif.Props.C36." + t for t in [
     "accepted_buffers_balanced", "rejects_double_delivery", "rejects_lost_message", "rejects_over_limit",
 ]] + ["TLVerif.Props.C36Window." + t for t in [
     "recv_characterisation", "recv_delivers_prefix", "recv_complete", "recv_prefix_monotone", "send_ack_sound",
-    "send_release_exactly_once",
+    "send_release_exactly_once", "getChunks_contiguous",
     "sys_delivered_prefix", "sys_ack_safe", "sys_all_acked_all_delivered",
 ]]
 SOURCES = ["TLVerif.Udp.Monitor", "TLVerif.Udp.MonitorLemmas", "TLVerif.Udp.Driver", "TLVerif.Udp.Window",
-           "TLVerif.Udp.WindowLemmas", "TLVerif.Udp.SysLemmas", "TLVerif.Udp.ReleaseLemmas"]
+           "TLVerif.Udp.WindowLemmas", "TLVerif.Udp.SysLemmas", "TLVerif.Udp.ReleaseLemmas",
+           "TLVerif.Udp.Resend", "TLVerif.Udp.ResendLemmas"]
 
 # ---------------------------------------------------------------------------------------------
 # command strings (the simulator's input language: see FuzzDyukov)
@@ -115,6 +116,72 @@ def gen_commands(rng, n, ntr, profile, restarts, bigmsg):
             continue
         out += cmd_l(t, rng.below(256))
     return bytes(out) + b"\0\0"
+
+
+def gen_directed(rng, ntr=2):
+    """Schedules aimed at the control path: many small messages one per datagram, out-of-order reads at the
+    receiver, acks and resend requests produced at different moments, then read by the sender in a
+    different order than they were sent (acks overtaking resend requests), duplicated or lost."""
+    src, dst = 0, 1
+    if ntr > 2:
+        src = rng.below(ntr - 1)
+        dst = rng.range(src + 1, ntr - 1)
+    c = bytearray()
+    k = rng.range(3, 8)
+    for _ in range(k):
+        c += cmd_n(src, dst, rng.choice([4, 4, 4, 4, 8, 8, 12, 28, 32, 60]))
+        if rng.chance(5, 6):
+            c += cmd_w(src)
+    for _ in range(rng.range(2, 5)):
+        for _ in range(rng.range(1, 2)):
+            c += cmd_r(dst, rng.below(8))
+            if rng.chance(5, 6):
+                c += cmd_e(dst)
+        # acknowledge, then (maybe) request the holes: w, ack timer, w, resend-request timer, w
+        for x in (cmd_w(dst), cmd_t(dst, 1), cmd_w(dst), cmd_t(dst, 2), cmd_w(dst)):
+            if rng.chance(4, 5):
+                c += x
+        if rng.chance(1, 2):
+            continue                      # let control datagrams pile up at the sender
+        for _ in range(rng.range(1, 4)):
+            x = rng.below(10)
+            if x == 0:
+                c += cmd_d(src, rng.below(4))
+            elif x == 1:
+                c += cmd_l(src, rng.below(4))
+            c += cmd_r(src, rng.below(4))
+            if rng.chance(5, 6):
+                c += cmd_e(src)
+        if rng.chance(4, 5):
+            c += cmd_w(src)
+        if rng.chance(1, 6):
+            c += cmd_t(src, 0)
+        if rng.chance(1, 5):
+            c += cmd_n(src, dst, rng.choice([4, 8, 28]))
+            c += cmd_w(src)
+    return bytes(c) + b"\0\0"
+
+
+def enum_control_orders(k):
+    """Systematic: k one-chunk messages, one datagram each; the receiver reads datagram i, acknowledges and
+    requests the holes, reads datagram j, acknowledges again; the sender then reads the control datagrams
+    in every order (optionally after duplicating one), with header hand-over, and writes."""
+    out = []
+    pre = b"".join(cmd_n(0, 1, 4) + cmd_w(0) for _ in range(k))
+    for i in range(k):
+        for j in range(k - 1):
+            mid = (cmd_r(1, i) + cmd_e(1) + cmd_w(1) + cmd_t(1, 1) + cmd_w(1) + cmd_t(1, 2) + cmd_w(1) +
+                   cmd_r(1, j) + cmd_e(1) + cmd_t(1, 1) + cmd_w(1))
+            for dup in (None, 0, 1, 2):
+                n0 = 3 + (dup is not None)
+                for a in range(n0):
+                    for b in range(n0 - 1):
+                        for third in (False, True):
+                            tail = (cmd_d(0, dup) if dup is not None else b"") + cmd_r(0, a) + cmd_e(0) + cmd_r(0, b) + cmd_e(0)
+                            if third:
+                                tail += cmd_w(0) + cmd_r(0, 0) + cmd_e(0)
+                            out.append(pre + mid + tail + cmd_w(0) + b"\0\0")
+    return out
 
 
 def parse_commands(b):
@@ -347,39 +414,71 @@ def oracle_rcv(line, out):
 def gen_snd(rng, big):
     ops = []
     nxt = 0
+    nmsg = 0
     for _ in range(rng.range(1, 40 if big else 14)):
-        r = rng.below(10)
-        if r < 3 and len([o for o in ops if o[0] == "m"]) < 200:
-            k = rng.choice([1, 1, 2, 3, rng.range(1, 6)])
-            ops.append("m%d" % k)
-            nxt += k
-        elif r < 7:
+        r = rng.below(20)
+        if r < 5 and nmsg < 200:
+            if rng.chance(1, 2):
+                ops.append("s%d" % rng.choice([4, 4, 4, 8, 8, 12, 20, 28]))
+                nxt += 1
+            else:
+                k = rng.choice([1, 1, 2, 3, rng.range(1, 6)])
+                ops.append("m%d" % k)
+                nxt += k
+            nmsg += 1
+        elif r < 9:
             ops.append("c%d" % rng.below(nxt + 2))
-        else:
+        elif r < 11:
             ops.append("p%d" % rng.below(nxt + 3))
-    return "udp.snd " + ",".join(ops)
+        elif r < 15:
+            ops.append("g0")
+        elif r < 16:
+            ops.append("t0")
+        elif nxt > 0:
+            rs = []
+            lo = rng.below(nxt)
+            for _ in range(rng.range(1, 3)):
+                hi = min(nxt - 1, lo + rng.below(6))
+                rs.append("%d-%d" % (lo, hi))
+                lo = hi + 1 + rng.below(3)
+                if lo >= nxt:
+                    break
+            ops.append("r" + "/".join(rs))
+    return "udp.snd " + ",".join(ops or ["g0"])
 
 
 def oracle_snd(line, out):
+    if out == "panic":
+        return "sender panicked"
     if not out.startswith("ok "):
         return "sender failed (%s)" % out[:30]
     ops = line.split(" ")[1].split(",")
     o = out.split(" ")
     steps = o[1].split(",")
     msg_of = []          # message id per sequence number
+    size_of = []
     acked = set()
     lastp = 0
+    nmsg = 0
     for op, st in zip(ops, steps):
-        p, nx, flags, nrel = st.split(":")
-        p, nx, nrel = int(p), int(nx), int(nrel)
+        f = st.split(":")
+        p, nx, flags, nrel = int(f[0]), int(f[1]), f[2], int(f[3])
         flags = "" if flags == "-" else flags
-        n = int(op[1:])
         if op[0] == "m":
-            msg_of += [max(msg_of) + 1 if msg_of else 0] * n
+            n = int(op[1:])
+            msg_of += [nmsg] * n
+            size_of += [28] * (n - 1) + [4]
+            nmsg += 1
+        elif op[0] == "s":
+            msg_of += [nmsg]
+            size_of += [int(op[1:])]
+            nmsg += 1
         elif op[0] == "c":
+            n = int(op[1:])
             if lastp <= n < len(msg_of):
                 acked.add(n)
         elif op[0] == "p":
+            n = int(op[1:])
             if n > 0 and lastp <= n - 1 < len(msg_of):
                 acked.update(range(lastp, n))
         exp = lastp
@@ -397,6 +496,21 @@ def oracle_snd(line, out):
         exp_rel = len(set(m for k, m in enumerate(msg_of) if k < p) - set(m for k, m in enumerate(msg_of) if k >= p))
         if nrel != exp_rel:
             return "%d message buffers released, %d messages are fully acknowledged" % (nrel, exp_rel)
+        if op[0] == "g":
+            g = f[5][1:].split(".")
+            first, seqs = int(g[0]), ([] if g[2] == "-" else g[2].split("+"))
+            if "?" in seqs:
+                return "datagram contains a chunk that is not in the window"
+            seqs = [int(x) for x in seqs]
+            if seqs and seqs != list(range(first, first + len(seqs))):
+                return "datagram numbered %d..%d carries the chunks %s: not consecutive" % (first, first + len(seqs) - 1, seqs)
+            for q in seqs:
+                if not (p <= q < nx) or q in acked:
+                    return "datagram carries chunk %d which is acknowledged or outside the window" % q
+            if len(set(msg_of[q] for q in seqs)) != len(seqs):
+                return "two chunks of one message in one datagram"
+            if sum(4 + size_of[q] for q in seqs) > 32:
+                return "datagram payload exceeds the maximum"
         lastp = p
     rel = [] if o[2] == "-" else o[2].split(",")
     if rel != [str(k) for k in range(len(rel))]:
@@ -454,6 +568,13 @@ def run(c):
         for b in dist:
             for fl in (2, 0):
                 lines.append(sim_line(fl, base + a + b + cmd_w(0) + cmd_r(1, 0) + a + b"\0\0"))
+    # control-path schedules: systematic orders of acks / resend requests at the sender, and directed random ones
+    for k in ((3, 4, 5, 6) if c.thorough else (4, 5)):
+        for cmds in enum_control_orders(k):
+            lines.append(sim_line(2, cmds))
+    for i in range(12000 if c.thorough else 4000):
+        fl = rng.choice([2, 2, 2, 0, 6, 3])
+        lines.append(sim_line(fl, gen_directed(rng, rng.choice([2, 2, 3, 4]))))
     # random command strings
     nrand = 20000 if c.thorough else 2500
     profiles = sorted(PROFILES)
@@ -598,14 +719,24 @@ def run(c):
     for k in range(1, 5 if c.thorough else 4):
         for tup in itertools.product(sops, repeat=k):
             wl.append("udp.snd " + ",".join(("m3",) + tup))
+    # GetChunksToSend answering resend requests over windows with acknowledged holes: five one-chunk
+    # messages sent once, then every sequence of selective acks / prefix acks / resend requests / timeouts
+    rops = ["c0", "c1", "c2", "c3", "c4", "p1", "p2", "r0-3", "r0-4", "r1-4", "r0-1/3-4", "g0", "t0"]
+    for k in range(1, 5 if c.thorough else 4):
+        for tup in itertools.product(rops, repeat=k):
+            wl.append("udp.snd " + ",".join(("s4", "s4", "s4", "s4", "s4", "g0", "g0") + tup + ("g0", "g0")))
     for _ in range(10000 if c.thorough else 2000):
         wl.append(gen_rcv(rng, rng.chance(1, 2)))
         wl.append(gen_snd(rng, rng.chance(1, 2)))
     wl = list(dict.fromkeys(wl))
+    wfails = []
     for l, a, b in c.tie("window", wl, impl, model):
         what = oracle_rcv(l, a) if l.startswith("udp.rcv") else oracle_snd(l, a)
         if what:
-            c.oracle_fail(l, what, l)
+            wfails.append((l, what))
+    wfails.sort(key=lambda x: len(x[0]))
+    for l, what in wfails[:40]:
+        c.oracle_fail(l, what, l)
 
     for l, o, mo in list(zip(lines, outs, mouts))[:: max(1, len(lines) // 6)][:6]:
         c.samples.append({"tie": "sim+monitor", "line": l[:200], "impl": o[:260], "model": mo[:200]})
